@@ -31,6 +31,7 @@ from hypothesis import strategies as st
 from .. import strategies as S
 from ..common import permuted
 from ..engine import Clause, require
+from ..common import with_history  # noqa: E402
 
 ASSUMPTIONS = [
     "oracle = invariants over the random execution (degree per node and size never higher; "
@@ -67,6 +68,7 @@ def _py(x):
 # undirected
 
 
+@with_history
 def _build(case):
     from hypergraphx import Hypergraph
     U = case["labels"]
@@ -339,6 +341,7 @@ def _hypergraph_cases(draw, tier, restricted):
 # directed
 
 
+@with_history
 def _build_directed(case):
     from hypergraphx import DirectedHypergraph
     U = case["labels"]
